@@ -182,6 +182,16 @@ def run(ctx):
         ctx.count()
         ctx.distinct((case['kind'], case['behaviour']) + tuple(case['history']))
         v = judge(case, obs, load)
+        if v and any(w.endswith('-slow') or (w.endswith('-not-bounded') and not (d or {}).get('hang')) for w, d in v):
+            # a verdict which rests on a measured duration alone must repeat: the history is run once more on its own (a stall of
+            # the checker's own driver process is not a property of the library)
+            obs2 = land.run_cases([case], case_timeout=240)[0]
+            v2 = judge(case, obs2, load)
+            if not v2:
+                ctx.extra['timing_verdicts_not_reproduced'] = ctx.extra.get('timing_verdicts_not_reproduced', 0) + 1
+                v = []
+            else:
+                v = v2
         ctx.outcome('%s:%s:%s' % (case['kind'], case['behaviour'], v[0][0] if v else 'ok'))
         for what, detail in v:
             if what == 'harness':
